@@ -261,7 +261,7 @@ class FB:
         self.block = None
 
     def T(self, name):
-        return getattr(self.ir, name)
+        return getattr(self.ir, name) if isinstance(name, str) else name
 
     def nm(self, p="v"):
         self.n += 1
@@ -764,6 +764,103 @@ def feature_modules(thorough=False):
     fb.emit(ir.Store(v, gres))
     fb.ret(v)
     done("collision:global-and-local-both-used", fb, [("f", ["i32"])])
+
+    # --- the same forward-referenced value in several operand slots of one instruction: both readers create one
+    # placeholder per name and patch it by replace_by() once the definition arrives, so every slot must be patched
+    fb = FB("dupfwd1")       # function values defined later in the module, passed twice / three times
+    xsink = ir.ExternalProcedure("sink2", [ir.ptr, ir.ptr])
+    fb.m.add_external(xsink)
+    fn_ap, (pf, pg, px) = fb.function("apply2", "i32", ["ptr", "ptr", "i32"])
+    r1 = fb.emit(ir.FunctionCall(pf, [px], fb.nm("r"), ir.i32))
+    fb.ret(fb.emit(ir.FunctionCall(pg, [r1], fb.nm("r"), ir.i32)))
+    fn_ap3, (qf, qg, qh, qx) = fb.function("apply3", "i32", ["ptr", "ptr", "ptr", "i32"])
+    r1 = fb.emit(ir.FunctionCall(qf, [qx], fb.nm("r"), ir.i32))
+    r2 = fb.emit(ir.FunctionCall(qg, [r1], fb.nm("r"), ir.i32))
+    fb.ret(fb.emit(ir.FunctionCall(qh, [r2], fb.nm("r"), ir.i32)))
+    fn_c, (cx,) = fb.function("f", "i32", ["i32"])
+    f_block = fb.block
+    fn_inc, (ix,) = fb.function("inc", "i32", ["i32"])               # defined after its users
+    fb.ret(fb.binop(ix, "+", fb.const(1, "i32"), "i32"))
+    fn_dbl, (dx,) = fb.function("dbl", "i32", ["i32"])
+    fb.ret(fb.binop(dx, "*", fb.const(2, "i32"), "i32"))
+    fb.fn = fn_c
+    fb.at(f_block)
+    a1 = fb.emit(ir.FunctionCall(fn_ap, [fn_inc, fn_inc, cx], fb.nm("r"), ir.i32))
+    a2 = fb.emit(ir.FunctionCall(fn_ap3, [fn_dbl, fn_inc, fn_dbl, a1], fb.nm("r"), ir.i32))
+    a3 = fb.emit(ir.FunctionCall(fn_ap3, [fn_inc, fn_inc, fn_inc, a2], fb.nm("r"), ir.i32))
+    fb.emit(ir.ProcedureCall(xsink, [fn_dbl, fn_dbl]))
+    fb.ret(a3)
+    done("forward:same-function-value-in-several-argument-slots", fb, [("f", ["i32"])])
+    fb = FB("dupfwd2")       # local values used twice by one instruction that is printed before their definition
+    fn_h, (hx, hy) = fb.function("pair", "i32", ["i32", "i32"])
+    fb.ret(fb.binop(fb.binop(hx, "*", fb.const(3, "i32"), "i32"), "+", hy, "i32"))
+    xp = ir.ExternalProcedure("note", [ir.i32, ir.i32])
+    fb.m.add_external(xp)
+    gq = ir.Variable("cell", ir.Binding.GLOBAL, 8, 8)
+    fb.m.add_variable(gq)
+    fn, (a,) = fb.function("f", "i32", ["i32"])
+    b_use, b_def = fb.new_block("use"), fb.new_block("def")
+    fb.emit(ir.Jump(b_def))
+    fb.at(b_def)
+    d1 = fb.binop(a, "+", fb.const(1, "i32"), "i32")
+    dp = fb.binop(gq, "+", fb.const(4, "ptr"), "ptr")
+    fb.emit(ir.Jump(b_use))
+    fb.at(b_use)
+    b2 = fb.binop(d1, "*", d1, "i32")                                       # both binop operands (first: the readers
+    c1 = fb.emit(ir.FunctionCall(fn_h, [d1, d1], fb.nm("r"), ir.i32))       # type a placeholder by its first use)
+    fb.emit(ir.ProcedureCall(xp, [d1, d1]))                                 # function / procedure call arguments
+    fb.emit(ir.Store(b2, dp))
+    fb.emit(ir.CopyBlob(dp, dp, 4))                                         # both memcpy operands
+    yes, no = fb.new_block("yes"), fb.new_block("no")
+    fb.emit(ir.CJump(d1, "==", d1, yes, no))                                # both cjmp operands
+    fb.at(yes)
+    fb.ret(fb.binop(c1, "+", b2, "i32"))
+    fb.at(no)
+    fb.ret(c1)
+    done("forward:same-local-value-in-several-operand-slots", fb, [("f", ["i32"])])
+
+    # --- several DISTINCT blob types in one module (every BlobDataTyp has the name "blob"): each position that
+    # carries a type must keep its own size and alignment
+    fb = FB("blobs")
+    B84, B88, B124, B31, B1616 = (ir.BlobDataTyp(8, 4), ir.BlobDataTyp(8, 8), ir.BlobDataTyp(12, 4),
+                                  ir.BlobDataTyp(3, 1), ir.BlobDataTyp(16, 16))
+    x1 = ir.ExternalFunction("take_pair", [B84, B88], ir.i32)
+    x2 = ir.ExternalFunction("make_wide", [ir.i32], B88)
+    x3 = ir.ExternalProcedure("take_three", [B124, B31, B1616, B84])
+    for x in (x1, x2, x3):
+        fb.m.add_external(x)
+    fn_mk, (mv,) = fb.function("make_pair", B84, ["i32"])
+    al, ap = fb.alloc(8, 4)
+    fb.emit(ir.Store(mv, ap))
+    fb.emit(ir.Store(mv, fb.binop(ap, "+", fb.const(4, "ptr"), "ptr")))
+    fb.ret(al)
+    fn_mw, (mv,) = fb.function("make_wide2", B88, ["i32"])
+    al, ap = fb.alloc(8, 8)
+    fb.emit(ir.Store(fb.cast(mv, "i64"), ap))
+    fb.ret(al)
+    fn, (pp, pw, pt, sel) = fb.function("sum", "i32", [B84, B88, B124, "i32"])
+    fb.emit(ir.Undefined(fb.nm("undef"), B31))
+    fb.emit(ir.Undefined(fb.nm("undef"), B1616))
+    c1 = fb.emit(ir.FunctionCall(fn_mk, [sel], fb.nm("r"), B84))            # call results of blob type
+    c2 = fb.emit(ir.FunctionCall(fn_mw, [sel], fb.nm("r"), B88))
+    c3 = fb.emit(ir.FunctionCall(x2, [sel], fb.nm("r"), B88))
+    l, r_, j = fb.new_block("l"), fb.new_block("r"), fb.new_block("j")
+    fb.emit(ir.CJump(sel, ">", fb.const(0, "i32"), l, r_))
+    fb.at(l)
+    fb.emit(ir.Jump(j))
+    fb.at(r_)
+    fb.emit(ir.Jump(j))
+    fb.at(j)
+    ph1 = fb.emit(ir.Phi(fb.nm("ph"), B88))                                 # phis of blob type
+    ph1.set_incoming(l, pw)
+    ph1.set_incoming(r_, c2)
+    ph2 = fb.emit(ir.Phi(fb.nm("ph"), B84))
+    ph2.set_incoming(l, pp)
+    ph2.set_incoming(r_, c1)
+    fb.emit(ir.ProcedureCall(x3, [pt, fb.alloc(3, 1)[0], fb.alloc(16, 16)[0], ph2]))
+    fb.emit(ir.Store(c3, fb.alloc(8, 8)[1]))
+    fb.ret(fb.emit(ir.FunctionCall(x1, [ph2, ph1], fb.nm("r"), ir.i32)))
+    done("blob:distinct-blob-types-in-signatures-calls-phis", fb)
     return out
 
 
@@ -819,6 +916,29 @@ int step(int x) { return x * g_other; }
 int f(int n) { int s = n + 1; int i; char c = n; for (i = 0; i < (n & 3); i++) { s = s * 2 + step(i) - (s > 4 ? i : c); }
   return s > 10 ? s - 2 : s + 5; }
 """, "f", ["i32"]),
+    ("c:function-pointer-passed-twice-before-its-definition", r"""
+int inc(int x);
+int dbl(int x);
+int apply2(int (*f)(int), int (*g)(int), int x) { return g(f(x)); }
+int apply3(int (*f)(int), int (*g)(int), int (*h)(int), int x) { return h(g(f(x))); }
+int f(int x) { return apply2(inc, inc, x) + apply3(dbl, inc, dbl, x) + apply3(inc, inc, inc, 1); }
+int inc(int x) { return x + 1; }
+int dbl(int x) { return x * 2; }
+""", "f", ["i32"]),
+    ("c:two-struct-types-by-value", r"""
+struct pair { int a; int b; };
+struct wide { long long v; };
+struct odd { char c[3]; };
+extern int ext_sum(struct pair p, struct wide w);
+extern struct wide ext_wide(struct odd o);
+struct pair gp = {1, 2};
+struct wide gw = {5};
+struct odd go = {{7, 8, 9}};
+int sum(struct pair p, struct wide w, struct odd o) { return p.a + p.b + (int)w.v + o.c[1]; }
+struct pair mkpair(int a) { struct pair p; p.a = a; p.b = a + 1; return p; }
+struct wide mkwide(int a) { struct wide w; w.v = a; return w; }
+int f(int a) { struct pair p = mkpair(a); struct wide w = mkwide(a); return sum(p, w, go) + sum(gp, gw, go) + ext_sum(p, w); }
+""", "f", ["i32"]),
     ("c:global-and-temporary-of-the-same-name", r"""
 int result;
 int h(int x) { return x + 1; }
@@ -864,7 +984,7 @@ def corpus(ctx, n_irgen, n_c):
                 ctx.cov["frontend_rejected"] = ctx.cov.get("frontend_rejected", 0) + 1
                 continue
             items.append(Item("%s%s" % (key, ":O" + lvl if lvl else ""), m, [(fn, ptys)],
-                              ext=[{"name": x, "rets": [project_ir.limbs(k, 4) for k in (3, 1, 4, 1, 5, 9)]} for x in ("ext", "show")],
+                              ext=[{"name": x, "rets": [project_ir.limbs(k, 4) for k in (3, 1, 4, 1, 5, 9)]} for x in ("ext", "show", "ext_sum")],
                               src=src))
     for _ in range(n_irgen):
         seed = rng.randrange(1 << 30)
